@@ -1,6 +1,7 @@
 package main
 
 import (
+	"io"
 	"crypto/sha256"
 	"encoding/hex"
 	"encoding/json"
@@ -123,8 +124,16 @@ func cleanupHome() {
 
 var genesisTime = time.Date(2024, 1, 1, 0, 0, 0, 0, time.UTC)
 
+var traceSeq int
+
 func newApp(db dbm.DB, chainID string) *chain.App {
-	return chain.New(log.NewNopLogger(), db, nil, true, map[int64]bool{}, simHome(), 5, chain.MakeEncodingConfig(),
+	var tw io.Writer
+	if d := os.Getenv("VERIF_TRACE_STORE"); d != "" {
+		traceSeq++
+		f, _ := os.Create(fmt.Sprintf("%s/app-%d.trace", d, traceSeq))
+		tw = f
+	}
+	return chain.New(log.NewNopLogger(), db, tw, true, map[int64]bool{}, simHome(), 5, chain.MakeEncodingConfig(),
 		simtestutil.EmptyAppOptions{}, chain.GetWasmEnabledProposals(), chain.EmptyWasmOpts, baseapp.SetChainID(chainID))
 }
 
@@ -385,7 +394,7 @@ func digestTx(r TxResult) string {
 		}
 	}
 	lh := sha256.Sum256([]byte(r.Log))
-	return fmt.Sprintf("code=%d gas=%d log=%s ev=%s", r.Code, r.GasUsed, hex.EncodeToString(lh[:6]), hex.EncodeToString(h.Sum(nil)[:8]))
+	return fmt.Sprintf("code=%d gas=%d len=%d log=%s ev=%s", r.Code, r.GasUsed, r.Bytes, hex.EncodeToString(lh[:6]), hex.EncodeToString(h.Sum(nil)[:8]))
 }
 
 // Ctx returns a context over the deliver state ("between two transactions"). After set-up it is READ-ONLY:
@@ -472,6 +481,15 @@ func (w *World) BuildTx(msgs []sdk.Msg, gasLimit uint64, signers []*Actor) ([]by
 
 // DeliverMsgs delivers one signed tx with the given msgs; signer is the actor for all msgs.
 func (w *World) DeliverMsgs(signer *Actor, gasLimit uint64, msgs ...sdk.Msg) TxResult {
+	// mempool stub: CheckTx rejects a tx whose messages fail ValidateBasic, so it never reaches a block.
+	// (Delivering it anyway would report the block's BeginBlock gas as the tx's GasUsed, an SDK quirk that differs
+	// between a restarted and a continuously running node.)
+	for _, m := range msgs {
+		if err := m.ValidateBasic(); err != nil {
+			w.Stats.Probe("mempool.rejected_validate_basic")
+			return TxResult{Code: 999997, Log: "checktx: " + err.Error()}
+		}
+	}
 	bz, err := w.BuildTx(msgs, gasLimit, []*Actor{signer})
 	if err != nil {
 		return TxResult{Code: 999999, Log: "build: " + err.Error()}
